@@ -8,6 +8,7 @@ PROPS_VO = 'Props/C06.vo'
 GENERATORS = {}
 COQ_CASE_TYPE = 'case'
 COQ_AGREE = 'agree'
+COQ_SHARD = 40
 REPLAY_KIND = 'history'
 EXHAUSTIVE = {'quick': False, 'thorough': False}
 WRITES = ('create', 'setattr', 'set', 'destroy', 'syncupdate')
@@ -40,7 +41,7 @@ def corpus():
 
 
 def generate(rng, tier):
-    n = 1500 if tier == 'quick' else 30000
+    n = 800 if tier == 'quick' else 20000
     return [L.gen_history(rng, PROFILE, rng.randint(3, 40)) for _ in range(n)]
 
 
